@@ -177,8 +177,8 @@ func random(r *rand.Rand, d int) *node {
 		return option(sub())
 	case c < 80:
 		n := 2 + r.IntN(3)
-		if r.IntN(6) == 0 {
-			n = 2 + r.IntN(20)
+		if r.IntN(8) == 0 {
+			n = 5 + r.IntN(3)
 		}
 		xs := make([]*node, n)
 		spine := r.IntN(n)
@@ -282,7 +282,7 @@ func main() {
 	var all []*node
 	seen := map[string]bool{}
 	add := func(n *node) {
-		if n.depth > 5 || seen[n.expr] || size(n) > 60 {
+		if n.depth > 5 || seen[n.expr] || size(n) > 40 {
 			return
 		}
 		seen[n.expr] = true
@@ -310,9 +310,12 @@ func main() {
 		func(x *node) *node { return genericPair(given("int"), x) },
 		func(x *node) *node { return genericRec3(x, given("string"), given("int")) },
 	}
-	for _, lf := range []*node{given("int"), given("string"), given("tbl.Point"), hnil()} {
+	for li, lf := range []*node{given("int"), given("string"), given("tbl.Point"), hnil()} {
 		for _, p := range unary {
 			add(p(lf))
+			if li > 0 {
+				continue // the full parent x child square only over int
+			}
 			for _, c := range unary {
 				add(p(c(lf)))
 			}
@@ -342,17 +345,19 @@ func main() {
 		ys[(n*7)%n] = ptr(slice(ptr(given("int"))))
 		ys[(n*5+1)%n] = gomap(given("string"), slice(given("string")))
 		add(tuple(ys...))
-		zs := make([]*node, n)
-		for i := range zs {
-			zs[i] = random(r, r.IntN(3))
+		if n <= 8 {
+			zs := make([]*node, n)
+			for i := range zs {
+				zs[i] = random(r, r.IntN(3))
+			}
+			add(tuple(zs...))
 		}
-		add(tuple(zs...))
 		// the tuple under a pointer and in a slice
 		ws := make([]*node, n)
 		for i := range ws {
 			ws[i] = mutableComp(i*3 + n)
 		}
-		if n <= 12 {
+		if n <= 6 {
 			add(ptr(tuple(ws...)))
 			add(slice(tuple(ws...)))
 		}
@@ -379,10 +384,14 @@ func main() {
 	add(ptr(given("fp.Unit")))
 	add(gomap(tuple(given("int"), given("string")), ptr(given("int"))))
 	// 7. random expressions, depth budget 2..5
-	target := 640
+	target := 900
 	for tries := 0; len(all) < target && tries < 100000; tries++ {
-		d := 2 + r.IntN(4)
-		add(random(r, d))
+		d := 3 + r.IntN(3)
+		n := random(r, d)
+		if n.depth < 3 {
+			continue
+		}
+		add(n)
 	}
 
 	emit(all)
